@@ -118,6 +118,9 @@ func main() {
 			fmt.Fprintln(os.Stderr, "known_findings.json:", ferr)
 			os.Exit(3)
 		}
+		if os.Getenv("VERIF_STOP_AT") != "" {
+			engine.StopSentinel = filepath.Join(filepath.Dir(*out), "stop")
+		}
 		res := engine.RunWorker(ck, *tier, *shard, *n, *seed, dl, *trace, findings)
 		b, _ := json.Marshal(res)
 		if err := os.WriteFile(*out, b, 0644); err != nil {
